@@ -269,6 +269,10 @@ def main():
         pool.add(c, v.get("accs", {}))
     run.note("statistical_monitors", pool.judge(run, "tau-leap statistic '%s' (chemostats as sources/sinks) departs from the master equation (Ville test)"))
     run.note("false_alarm_budget", (len(pool.P) + pool.looks) * 1e-12)
+    # ---- history workloads: objects used, modified through their setters / re-used, used again (vf/history.py) ----
+    from vf.sandbox import run_extra as _run_extra
+    from vf.common import seed as _seed, tier as _tier
+    _run_extra(run, "vf.history:h_chemostat_alias", [{"seed": _seed(), "idx": _i} for _i in range(2400 if _tier() == "thorough" else 240)], cpu_budget=60, kind_prefix="history: ")
     return run.finish()
 
 
